@@ -101,7 +101,7 @@ func LoadEngine(work string, patterns []string) (*Engine, error) {
 	}
 	loadedPkgs = pkgs
 	prog, spkgs := ssautil.AllPackages(pkgs, ssa.GlobalDebug|ssa.InstantiateGenerics)
-	e := &Engine{prog: prog, pkgs: map[string]*ssa.Package{}, cs: NewContractSet(), reg: NewRegistry(), tags: map[string]int{}, counter: map[string]int{}, warnings: map[string]bool{}, implCache: map[string][]types.Type{}}
+	e := &Engine{workDir: work, prog: prog, pkgs: map[string]*ssa.Package{}, cs: NewContractSet(), reg: NewRegistry(), tags: map[string]int{}, counter: map[string]int{}, warnings: map[string]bool{}, implCache: map[string][]types.Type{}}
 	for i, p := range pkgs {
 		if spkgs[i] == nil {
 			continue
